@@ -14,6 +14,7 @@ from ..quote import chains, keys_in_chain
 from ..tables import enum_switches, switch_arms, switch_edges, variant_table
 
 LEVEL = 'other'
+TECHNIQUE = 'static analysis: serde/ron schema symmetry tables, conversion-table extraction, append-only and field-preservation audits, exhaustive reader, macro key tables vs parser fields, #[track_caller] closure, case evaluation of prefix/domain inheritance, value-independent emission of attribute properties, hashing covers what was read'
 CLAUSE = ('every pavex_bp_schema type serialises each declared field/variant unconditionally under the name its deserialiser expects; '
           'Blueprint::persist and the compiler use the same schema type with ron; the runtime->schema conversion tables preserve variant '
           'names and fields; components are only appended; RoutingModifiers builders keep every field and nest() moves prefix and domain '
